@@ -282,7 +282,7 @@ def both_tests(proj, tpath):
 
 
 MUTATIONS = ["fx_cycle", "fx_unknown_param", "fx_scope", "fx_per_thread", "fx_forbidden", "fx_builtin",
-             "test_unknown_fx", "suite_unknown_fx", "suite_per_thread", "suite_scope",
+             "test_unknown_fx", "test_param_row", "suite_unknown_fx", "suite_per_thread", "suite_scope",
              "dep_unknown", "dep_cycle", "dep_lasso", "dep_filtered",
              "pol_unknown_prop", "pol_forbidden_prop", "pol_missing_prop", "pol_bad_value", "pol_unknown_tag", "pol_forbidden_tag"]
 
@@ -350,6 +350,27 @@ def mutate(rng, proj, kind):
         for t in both_tests(proj, rng.choice(tests)):
             t["args"] = t["args"] + [520]
         return "unknown fixture in a test"
+    if kind == "test_param_row":
+        # a parametrized function one of whose rows lacks a key: the later sibling test has the same arguments (same function)
+        # but one parameter less, so that argument is looked up as a fixture -- and there is none of that name
+        cands = [(tp, t) for tp, _, t, _, _ in flatten_tests(proj["all_suites"])]
+        if not cands:
+            return None
+        tp, t0 = rng.choice(cands)
+        if not t0["params"]:
+            pn = 950 + rng.randint(0, 3)
+            for t in both_tests(proj, tp):
+                t["args"] = t["args"] + [pn]
+                t["params"] = t["params"] + [pn]
+        new_name = 700 + rng.randint(0, 20)
+        for st in both(proj, tp[:-1]):
+            orig = next((t for t in st["tests"] if t["name"] == tp[-1]), None)
+            if orig is None:          # the test is filtered out of the scheduled forest
+                continue
+            twin = dict(orig, name=new_name, deps=[], params=list(orig["params"][:-1]), props=list(orig["props"]), tags=list(orig["tags"]),
+                        args=list(orig["args"]))
+            st["tests"].insert(st["tests"].index(orig) + 1 + (rng.randint(0, 1) if len(st["tests"]) > 1 else 0), twin)
+        return "parametrized rows with different keys"
     if kind in ("suite_unknown_fx", "suite_per_thread", "suite_scope"):
         if not suites:
             return None
@@ -544,8 +565,14 @@ def build_suites(forest):
             suite.add_hook("setup_test", _mkfunc("setup_test", ["test"]))
         if s["teardown_test"]:
             suite.add_hook("teardown_test", _mkfunc("teardown_test", ["test", "status"]))
+        callbacks = {}
         for t in s["tests"]:
-            test = Test("t%d" % t["name"], "test %d" % t["name"], _mkfunc("cb", [arg_str(a) for a in t["args"]]))
+            # tests of one suite with the same argument list share ONE function object, as the tests expanded from one
+            # parametrized function do
+            key = tuple(t["args"])
+            if key not in callbacks:
+                callbacks[key] = _mkfunc("cb", [arg_str(a) for a in t["args"]])
+            test = Test("t%d" % t["name"], "test %d" % t["name"], callbacks[key])
             test.disabled = t["disabled"]
             test.dependencies = [path_str(d) for d in t["deps"]]
             test.parameters = {arg_str(a): 0 for a in t["params"]}
